@@ -346,6 +346,10 @@ matrixSslCreateIdentity(sslKeys_t *keys, psPubKey_t idkey, psX509Cert_t *cert)
     identity = matrixSslMakeIdentity(keys->pool, idkey, cert);
     if (identity == NULL)
     {
+        /* As on the other failure path below, the key and the certificate
+           chain handed in are consumed. */
+        psX509FreeCert(cert);
+        psClearPubKey(&idkey);
         return NULL;
     }
 
@@ -777,7 +781,9 @@ int32_t matrixSslLoadKeysMem(sslKeys_t *keys,
                     break;
                 }
             }
-            if (CAbuf && CAlen > 0)
+            /* Do not let a successful CA load hide the failure to load
+               the identity with every key type. */
+            if (rc == PS_SUCCESS && CAbuf && CAlen > 0)
             {
                 rc = matrixSslLoadKeyMaterialMem(
                         keys, NULL, 0, NULL, 0,
@@ -1435,7 +1441,9 @@ psRes_t matrixSslLoadKeys(sslKeys_t *keys,
                     break;
                 }
             }
-            if (CAfile)
+            /* Do not let a successful CA load hide the failure to load
+               the identity with every key type. */
+            if (rc == PS_SUCCESS && CAfile)
             {
                 rc = matrixSslLoadKeyMaterial(
                         keys, NULL, NULL, NULL, CAfile, 0, opts);
